@@ -267,7 +267,7 @@ def run():
     hists = r.json_lines("HIST")
     # only maximal histories need replaying (every prefix is replayed on the way)
     maximal = [h for h in hists if len(h) == maxlen]
-    cap = 6000 if chk.quick else 40000
+    cap = 6000 if chk.quick else 10000
     if len(maximal) > cap:
         chk.notes["maximal_histories_enumerated"] = len(maximal)
         common.rng("c12").shuffle(maximal)
